@@ -65,19 +65,6 @@ def main(tier):
                 if not (x == y == z):
                     print('  first divergence at index %d (seed %d)' % (i, F.seed_for(4242, pid, i)))
                     break
-    # tripwire: the mount emulation assumes trashcli never looks at st_dev
-    import trashcli
-    root = os.path.dirname(trashcli.__file__)
-    hits = []
-    for dp, _dn, fns in os.walk(root):
-        for fn in fns:
-            if fn.endswith('.py'):
-                with open(os.path.join(dp, fn), encoding='utf-8', errors='replace') as f:
-                    if 'st_dev' in f.read():
-                        hits.append(os.path.join(dp, fn))
-    if hits:
-        print('HARNESS-ERROR trashcli reads st_dev (%s): mount emulation must be revisited' % hits)
-        bad += 1
     if bad:
         print('HARNESS-ERROR determinism self-test failed')
         return 2
